@@ -336,7 +336,9 @@ func ext4MatrixScens(quick bool) []*fatScen {
 	W := func(p, off, ln string) fsOp { return fsOp{Kind: "write", Path: p, Off: off, Len: ln} }
 	letters := []fsOp{{Kind: "mkdir", Path: "d"}, W("d/f.bin", "0", "c+1"), W("g.bin", "cmid", "5c"), {Kind: "symlink", Path: "l", Path2: strings.Repeat("t", 61)}, {Kind: "remove", Path: "g.bin"}, {Kind: "reopen"}}
 	var out []*fatScen
-	feats := []string{"", "^64bit", "^flex_bg", "sparse_super2", "resize_inode", "ssv2,sparse_super2", "bpg=2048", "ratio=4096", "inodes=64", "^huge_file", "^64bit,^flex_bg", "sparse_super2,^flex_bg", "^dir_index", "bpg=256", "bpg=1024,^flex_bg"}
+	// inode counts that are / are not multiples of the inodes per block (4, 8, 16 for 1K, 2K, 4K blocks): 64 fills whole
+	// blocks, 40 and 104 leave the last inode-table block of a group partly used
+	feats := []string{"", "^64bit", "^flex_bg", "sparse_super2", "resize_inode", "ssv2,sparse_super2", "bpg=2048", "ratio=4096", "inodes=64", "inodes=40", "inodes=104,^flex_bg", "^huge_file", "^64bit,^flex_bg", "sparse_super2,^flex_bg", "^dir_index", "bpg=256", "bpg=1024,^flex_bg"}
 	type geo struct {
 		spb  uint8
 		size int64
@@ -349,7 +351,7 @@ func ext4MatrixScens(quick bool) []*fatScen {
 		for fi, f := range feats {
 			for _, journal := range []bool{false, true} {
 				for _, nocsum := range []bool{false, true} {
-					if quick && (fi > 8 || (journal && nocsum)) {
+					if quick && (fi > 10 || (journal && nocsum)) {
 						continue
 					}
 					if journal && g.size < 8<<20 {
